@@ -114,7 +114,37 @@ def spansClosedFrom (count : Nat) : Nat → List Nat → Bool
     (if Desc.f d = 1 then decide (i + (Desc.x d + (if Desc.y d = 0 then 1 else 0)) < count) else true) &&
       spansClosedFrom count (i + 1) ds
 
-def spansClosed (ms : List Nat) : Bool := spansClosedFrom ms.length 0 ms
+/-- the end (index of its last descriptor) of the replication at index `i` -/
+def spanEnd (i d : Nat) : Nat := i + Desc.x d + (if Desc.y d = 0 then 1 else 0)
+
+/-- no replication of the sequence runs past the end of a replication it lies in (`bufr_expand_desc`):
+`pre` = the replications met so far as (index, descriptor), newest first -/
+def spansNestedFrom : Nat → List (Nat × Nat) → List Nat → Bool
+  | _, _, [] => true
+  | i, pre, d :: ds =>
+    (if Desc.f d = 1 then
+       pre.all fun (j, dj) => !(decide (spanEnd j dj ≥ i) && decide (spanEnd i d > spanEnd j dj))
+     else true) &&
+      spansNestedFrom (i + 1) (if Desc.f d = 1 then (i, d) :: pre else pre) ds
+
+def spansClosed (ms : List Nat) : Bool := spansClosedFrom ms.length 0 ms && spansNestedFrom 0 [] ms
+
+/-- `bufr_tabled_reaches_itself(tbls, desc, path)`: depth first walk of the sequences a Table D
+descriptor refers to; `some true` = a descriptor being expanded is met again.  The C walk ends
+because a table is finite; the model walks to a fixed depth (`none` beyond it) -/
+def reachesItself (T : Tables) : Nat → List Nat → Nat → Option Bool
+  | 0, _, _ => none
+  | f+1, path, d =>
+    if Desc.f d ≠ 3 then some false
+    else if path.contains d then some true
+    else match T.fetchD d with
+      | none => some false
+      | some e => e.members.foldl (fun acc m => match acc with
+          | some false => reachesItself T f (d :: path) m
+          | r => r) (some false)
+
+/-- `bufr_tabled_is_circular(tbls, desc)`; shipped tables nest 6 deep -/
+def tabledCircular (T : Tables) (d : Nat) : Bool := reachesItself T 64 [] d == some true
 
 mutual
 /-- `bufr_estimate_seq_length` with its running state: `(lastDesc, lastNbits)`, `(repDesc, repCnt)`
@@ -191,6 +221,8 @@ def expandDesc (T : Tables) : Nat → Nat → Option Nat → Nat → XRes
     else match T.fetchD d with
       | none => .error .null
       | some e =>
+        -- a sequence that refers to itself is refused
+        if tabledCircular T d then .error .null else
         -- a replication inside a Table D sequence must be closed within the sequence
         if !spansClosed e.members then .error .null else
         match memberNodes T none e.members with
